@@ -86,8 +86,22 @@ func c11GenChain(rng *rand.Rand) *c11Ctx {
 		}
 		c.Signed = append(c.Signed, signed)
 	}
-	c.A = []int64{0, 1, 2, 2, 3, 4}[rng.Intn(6)]
-	c.D = []int64{0, 3, 8, 15, 25, 60}[rng.Intn(6)]
+	// evidence age limits, lowered and raised by the application at some heights
+	as, ds := []int64{0, 1, 2, 2, 3, 4}, []int64{0, 3, 8, 15, 25, 60}
+	lim := c11Params{A: as[rng.Intn(len(as))], D: ds[rng.Intn(len(ds))]}
+	for h := 1; h <= c.N; h++ {
+		if h > 1 && rng.Intn(4) == 0 {
+			switch rng.Intn(3) {
+			case 0:
+				lim.A = as[rng.Intn(len(as))]
+			case 1:
+				lim.D = ds[rng.Intn(len(ds))]
+			default:
+				lim = c11Params{A: as[rng.Intn(len(as))], D: ds[rng.Intn(len(ds))]}
+			}
+		}
+		c.Params = append(c.Params, lim)
+	}
 	return c
 }
 
